@@ -162,8 +162,8 @@ func (o *Out) writeMeta(m Meta) {
 func (o *Out) Corr(m Meta, op SX, expected string) {
 	// ±Inf / NaN (overflow) are outside every theorem and make tolerance-based stage comparisons meaningless
 	opLine := sxString(op)
-	if hasNonFinite(opLine) || hasNonFinite(expected) {
-		o.count("corr-skipped:non-finite-number")
+	if (hasNonFinite(opLine) || hasNonFinite(expected)) && strings.Contains(opLine, "expFromZero") {
+		o.count("corr-skipped:non-finite-number-from-exp")
 		return
 	}
 	o.line++
@@ -179,8 +179,10 @@ func (o *Out) Corr(m Meta, op SX, expected string) {
 func (o *Out) Spec(m Meta, op SX) {
 	// exact-rational checkers are meaningless on ±Inf / NaN (overflow of an exponential on a tiny range, …):
 	// such cases are outside every theorem; they stay in the bit-exact correspondence lines
-	if hasNonFinite(sxString(op)) {
-		o.count("spec-skipped:non-finite-number")
+	if l := sxString(op); hasNonFinite(l) && strings.Contains(l, "expFromZero") {
+		// the only legitimate source of ±Inf/NaN is the overflow of an exponential gain/loss function; a
+		// non-finite number anywhere else is left in and fails the checker
+		o.count("spec-skipped:non-finite-number-from-exp")
 		return
 	}
 	o.line++
